@@ -14,7 +14,6 @@ import numpy as np
 
 STEP_SLACK = 1e-12     # the quotient dt/target is itself rounded (DESIGN.md C14 (b))
 RATIO_TOL = 1e-9
-SUBSEQ_RTOL = 1e-9     # x range; the grid k/fl(1/m) is not always an exact integer
 BAND_ZERO = 1e-13      # harmonic amplitudes below BAND_ZERO*max|x| count as absent
 BAND_RTOL = 1e-10      # band-limited reproduction <= 1e-10 * max|x| (float64 / integer samples)
 EPS32 = float(np.finfo(np.float32).eps)
@@ -67,30 +66,48 @@ def retained_refining(x, y, k):
 
 def subsequence_decimating(x, y, m):
     """The output is a subsequence of the input: y[i] = x[i*m] for every i with i*m <= n-1 (stride-m samples from the
-    first one), optionally followed by the final sample x[n-1] when that one was not already taken. Values compared
-    within SUBSEQ_RTOL*range (+ a few ulps of max|x|). Returns (ok, first bad output index or None, allowed error)."""
+    first one), optionally followed by the final sample x[n-1] when that one was not already taken.
+    Tolerance, LOCAL to each compared sample: the grid point i/fl(1/m) misses the integer i*m by at most a few ulps of
+    i*m, so a correct linear interpolation deviates from x[i*m] by at most that offset times the adjacent slope plus the
+    rounding of the interpolation formula, which works with the two neighbouring samples:
+        allowed_i = 16 eps ((i*m + 1) * max|adjacent differences| + max|x[i*m-1], x[i*m], x[i*m+1]|)
+    (valid for any amplitude and any dynamic range inside the record; independent of the global maximum).
+    Returns (ok, first bad output index or None, allowed error there)."""
     n = len(x)
     if len(y) == 0:
         return False, 0, 0.0
-    rng_x = float(np.max(x) - np.min(x))
-    allowed = SUBSEQ_RTOL * rng_x + 8 * np.finfo(float).eps * float(np.max(np.abs(x)))
+    eps = np.finfo(float).eps
+    ax = np.abs(x)
+    d = np.abs(np.diff(x)) if n > 1 else np.zeros(0)
+    dl = np.concatenate([[0.0], d])              # |x[j] - x[j-1]|
+    dr = np.concatenate([d, [0.0]])              # |x[j+1] - x[j]|
+    nb = np.maximum(ax, np.maximum(np.concatenate([[0.0], ax[:-1]]), np.concatenate([ax[1:], [0.0]])))
+    local = 16 * eps * ((np.arange(n) + 1.0) * np.maximum(dl, dr) + nb)
     cnt = (n - 1) // m + 1                      # number of stride-m samples available
     L = min(cnt, len(y))
-    err = np.abs(y[:L] - x[0:(L - 1) * m + 1:m])
-    bad = np.flatnonzero(~(err <= allowed))
+    idx = np.arange(L) * m
+    err = np.abs(y[:L] - x[idx])
+    bad = np.flatnonzero(~(err <= local[idx]))
     if bad.size:
-        return False, int(bad[0]), allowed
+        return False, int(bad[0]), float(local[idx][bad[0]])
     if len(y) > cnt:
         last_taken = (cnt - 1) * m
-        if len(y) > cnt + 1 or last_taken >= n - 1 or not abs(y[cnt] - x[n - 1]) <= allowed:
-            return False, cnt, allowed
-    return True, None, allowed
+        if len(y) > cnt + 1 or last_taken >= n - 1 or not abs(y[cnt] - x[n - 1]) <= local[n - 1]:
+            return False, cnt, float(local[n - 1])
+    return True, None, float(np.max(local[idx]))
 
 
 def in_range(x, y):
-    """No output value leaves [min(x), max(x)] (a few ulps of max|x| for the rounding of the interpolation formula)."""
+    """No output value leaves [min(x), max(x)] (1e-12 of the extreme magnitude for the rounding of the interpolation
+    formula; for complex records the real and the imaginary parts are judged separately)."""
     if len(y) == 0:
         return True, 0.0
+    if np.iscomplexobj(x) or np.iscomplexobj(y):
+        x = np.asarray(x, dtype=complex)
+        y = np.asarray(y, dtype=complex)
+        r1 = in_range(x.real, y.real)
+        r2 = in_range(x.imag, y.imag)
+        return bool(r1[0] and r2[0]), max(r1[1], r2[1])
     lo, hi = float(np.min(x)), float(np.max(x))
     slack = 1e-12 * max(abs(lo), abs(hi))
     if not bool(np.all(np.isfinite(y))):
@@ -106,37 +123,47 @@ def duration_change(n, dt, ny, new_dt):
 
 # ------------------------------------------------------------------------------------------ periodic band-limited model
 def harmonics(x):
-    """Projection of one period of samples x_0..x_{N-1} onto the harmonics of the record period:
+    """Projection of one period of samples x_0..x_{N-1} (real or complex) onto the harmonics of the record period:
     x(tau) = a[0] + sum_{k>=1} a[k] cos(2 pi k tau) + b[k] sin(2 pi k tau), tau = t / (N*dt), for k < N/2.
-    Returns (a, b, nyq) with nyq = amplitude of the (-1)^n component for even N (0.0 for odd N)."""
-    x = np.asarray(x, dtype=float)
+    Returns (a, b, nyq) with nyq = amplitude of the (-1)^n component for even N (0 for odd N)."""
+    cplx = np.iscomplexobj(x)
+    x = np.asarray(x, dtype=complex if cplx else float)
     N = len(x)
     kmax = (N - 1) // 2
     n = np.arange(N)
     if N > FFT_ABOVE:
-        # long records: the same projection sums evaluated by the FFT (X_k = sum x_n exp(-2 pi i k n / N))
-        X = np.fft.rfft(x)
-        a = 2.0 / N * X.real[:kmax + 1]
-        b = -2.0 / N * X.imag[:kmax + 1]
-        a[0] = a[0] / 2.0
-        b[0] = 0.0
-        nyq = float(X.real[N // 2] / N) if N % 2 == 0 else 0.0
-        return a, b, nyq
-    k = np.arange(kmax + 1)
-    # phase k*n/N reduced exactly in integer arithmetic before the multiplication by 2 pi
-    ph = 2.0 * np.pi * (np.outer(k, n) % N) / N
-    a = np.cos(ph) @ x * (2.0 / N)
-    b = np.sin(ph) @ x * (2.0 / N)
+        # long records: the same projection sums evaluated by the FFT: X_k = sum x_n exp(-2 pi i k n / N) = C_k - i S_k
+        X = np.fft.fft(x)
+        Xm = np.concatenate([X[:1], X[:0:-1]])          # X_{-k}
+        C = (X + Xm)[:kmax + 1] / 2.0
+        S = ((Xm - X) / 2j)[:kmax + 1]
+        a = 2.0 / N * (C if cplx else C.real)
+        b = 2.0 / N * (S if cplx else S.real)
+        nyq = (X[N // 2] / N) if N % 2 == 0 else 0.0
+    else:
+        k = np.arange(kmax + 1)
+        # phase k*n/N reduced exactly in integer arithmetic before the multiplication by 2 pi
+        ph = 2.0 * np.pi * (np.outer(k, n) % N) / N
+        a = np.cos(ph) @ x * (2.0 / N)
+        b = np.sin(ph) @ x * (2.0 / N)
+        nyq = (np.sum(x * (-1.0) ** n) / N) if N % 2 == 0 else 0.0
     a[0] = a[0] / 2.0
     b[0] = 0.0
-    nyq = float(np.sum(x * (-1.0) ** n) / N) if N % 2 == 0 else 0.0
+    nyq = complex(nyq) if cplx else float(np.real(nyq))
     return a, b, nyq
+
+
+def with_nyquist(a, b, nyq):
+    """Coefficient arrays extended by the harmonic N/2 of an even-length record, read as a COSINE (the alternating
+    component c*(-1)^n is the sampling of c*cos(2 pi (N/2) tau); a sine at that frequency vanishes at every sample, so
+    the samples cannot carry one)."""
+    return np.concatenate([a, [nyq]]), np.concatenate([b, [0.0]])
 
 
 def band_index(a, b, nyq, scale, zero=BAND_ZERO):
     """Largest harmonic index present in the samples (N/2 if the alternating component is present)."""
     thr = zero * scale
-    amp = np.hypot(a, b)
+    amp = np.sqrt(np.abs(a) ** 2 + np.abs(b) ** 2)
     nz = np.flatnonzero(amp > thr)
     K = int(nz[-1]) if nz.size else 0
     if abs(nyq) > thr:
@@ -148,9 +175,10 @@ def trig_eval(a, b, K, tau, skip_below=0.0):
     """Value of the band-limited periodic signal at the fractional instants tau (in record periods). Harmonics whose
     amplitude is <= skip_below (rounding noise of the projection, far below the comparison tolerance) are skipped."""
     tau = np.asarray(tau, dtype=float)
-    y = np.full(tau.shape, float(a[0]))
+    cplx = np.iscomplexobj(a) or np.iscomplexobj(b)
+    y = np.full(tau.shape, a[0], dtype=complex if cplx else float)
     for k in range(1, K + 1):
-        if math.hypot(a[k], b[k]) <= skip_below:
+        if math.sqrt(abs(a[k]) ** 2 + abs(b[k]) ** 2) <= skip_below:
             continue
         ang = 2.0 * np.pi * np.mod(k * tau, 1.0)
         y = y + a[k] * np.cos(ang) + b[k] * np.sin(ang)
